@@ -1002,19 +1002,21 @@ impl<Backing : AsRef<[u32]> + AsMut<[u32]>> DrawTarget<Backing> {
     pub fn composite_surface<F: Fn(&[u32], &mut [u32]), SrcBacking: AsRef<[u32]>>(&mut self, src: &DrawTarget<SrcBacking>, src_rect: IntRect, dst: IntPoint, f: F) {
         let dst_rect = intrect(0, 0, self.width, self.height);
 
+        // `src_rect.min` lands on `dst`, so this is the translation from source to destination space
+        let offset = dst.to_vector() - src_rect.min.to_vector();
+
         // intersect the src_rect with the source size so that we don't go out of bounds
         let src_rect = src_rect.intersection_unchecked(&intrect(0, 0, src.width, src.height));
 
         let src_rect = dst_rect
-            .intersection_unchecked(&src_rect.translate(dst.to_vector())).translate(-dst.to_vector());
-
-        // clamp requires Float so open code it
-        let dst = IntPoint::new(dst.x.max(dst_rect.min.x).min(dst_rect.max.x),
-                                dst.y.max(dst_rect.min.y).min(dst_rect.max.y));
+            .intersection_unchecked(&src_rect.translate(offset)).translate(-offset);
 
         if src_rect.is_empty() {
             return;
         }
+
+        // the destination of the first pixel that is left after clipping
+        let dst = src_rect.min + offset;
 
         for y in src_rect.min.y..src_rect.max.y {
             let dst_row_start = (dst.x + (dst.y + y - src_rect.min.y) * self.width) as usize;
